@@ -347,6 +347,35 @@ Qed.
 Lemma resolve_unconflicted act w : conflicted w = false -> resolve act w = Some w.
 Proof. unfold resolve. intros ->. reflexivity. Qed.
 
+(* ---------- where the file, its helpers and the conflict record end up ---------- *)
+Lemma three_way_pick_spec b o t :
+  (b = o -> three_way_pick b o t = t) /\ (b = t -> three_way_pick b o t = o)
+  /\ (o = t -> three_way_pick b o t = t).
+Proof. destruct b, o, t; repeat split; intros; try discriminate; reflexivity. Qed.
+
+Lemma final_place_spec pb po pt :
+  (in_dst pb = in_dst po -> in_dst (final_place pb po pt) = in_dst pt)
+  /\ (in_dst pb = in_dst pt -> in_dst (final_place pb po pt) = in_dst po)
+  /\ (renamed pb = renamed po -> renamed (final_place pb po pt) = renamed pt)
+  /\ (renamed pb = renamed pt -> renamed (final_place pb po pt) = renamed po).
+Proof.
+  unfold final_place; simpl.
+  destruct (three_way_pick_spec (in_dst pb) (in_dst po) (in_dst pt)) as [A [B _]].
+  destruct (three_way_pick_spec (renamed pb) (renamed po) (renamed pt)) as [C [D _]].
+  repeat split; assumption.
+Qed.
+
+Lemma merge_placed_spec o pb po pt b t ot rs pl :
+  merge_placed o pb po pt b t ot rs = Some pl ->
+  merge_file o b t ot rs (wt0 t) = Some (p_wt pl) /\ p_at pl = final_place pb po pt.
+Proof.
+  unfold merge_placed. destruct (merge_file o b t ot rs (wt0 t)); [|discriminate].
+  intros H. injection H as <-. split; reflexivity.
+Qed.
+
+Lemma cherrypick_flag_spec a b : cherrypick_flag a b = false <-> a = true /\ b = true.
+Proof. destruct a, b; simpl; split; try discriminate; try tauto; intros [? ?]; discriminate. Qed.
+
 (* ---------- the sentinel collision ---------- *)
 Definition W_base : list line := [START ++ [10]; [97; 10]; [98; 10]; [99; 10]].
 Definition W_this : list line := [START ++ [10]; [65; 10]; [98; 10]; [99; 10]].
